@@ -139,10 +139,30 @@ PROP_BOUNDED = {
 
 
 def run_bounded(prop, tier, src=None):
-    '''-> (info dict for the evidence | None, [violation lines], [problems])'''
-    script = PROP_BOUNDED.get(prop)
-    if script is None:
-        return None, [], []
+    '''-> (info dict for the evidence | None, [violation lines], [problems]): the property's bounded stand-in (if it has
+    one) and the scenario battery of its stored demonstrations (harness/demo_battery.py), both labelled bounded'''
+    import glob
+    scripts = []
+    if PROP_BOUNDED.get(prop):
+        scripts.append(PROP_BOUNDED[prop])
+    if glob.glob(os.path.join(ROOT, 'seeded', prop + '_*', 'demo*.py')):
+        scripts.append('harness/demo_battery.py --prop ' + prop)
+    main_info, lines, problems = None, [], []
+    for script in scripts:
+        info, ls, ps = _run_bounded_one(prop, script, tier, src, len(lines))
+        lines.extend(ls)
+        problems.extend(ps)
+        if info is None:
+            continue
+        if main_info is None:
+            main_info = info
+        else:
+            main_info.setdefault('also', []).append({k: v for k, v in info.items() if k != 'failures'})
+            main_info['failures'] = main_info.get('failures', []) + info.get('failures', [])
+    return main_info, lines, problems
+
+
+def _run_bounded_one(prop, script, tier, src, n_before):
     import subprocess
     py = os.path.join(ROOT, '.venv', 'bin', 'python')
     env = dict(os.environ)
@@ -184,7 +204,7 @@ def run_bounded(prop, tier, src=None):
         if key in seen:
             continue
         seen.add(key)
-        name = '%s-bounded-%s-%d.json' % (prop, re.sub(r'[^A-Za-z0-9]+', '_', str(f.get('check'))), len(lines))
+        name = '%s-bounded-%s-%d.json' % (prop, re.sub(r'[^A-Za-z0-9]+', '_', str(f.get('check'))), n_before + len(lines))
         path = os.path.join(ROOT, 'replays', name)
         with open(path, 'w') as fh:
             json.dump({'property': prop, 'bounded': script, 'obligation': 'bounded stand-in %s: %s' % (script, f.get('check')),
